@@ -58,6 +58,24 @@ def js_round(x: float, ndigits: int = 0) -> float:
             return math.ceil(x * multiplier - 0.5) / multiplier
 
 
+_MAX_SAFE = 9007199254740992  # 2**53: every integer up to here is a double
+
+
+def as_double(n: Union[int, float]) -> Union[int, float]:
+    """Keep a numeric result inside IEEE double semantics.
+
+    The VM holds integral numbers as Python ints, which never round or
+    overflow; once a result leaves the exactly representable range it has to
+    become the nearest double (or an infinity) like any JavaScript number.
+    """
+    if type(n) is int and (n > _MAX_SAFE or n < -_MAX_SAFE):
+        try:
+            return float(n)
+        except OverflowError:
+            return float("inf") if n > 0 else float("-inf")
+    return n
+
+
 def js_pow(base, exponent) -> float:
     """Number::exponentiate on IEEE doubles (never host big-integer arithmetic)."""
     try:
@@ -453,7 +471,7 @@ class VM:
         elif op == OpCode.SUB:
             b = self.stack.pop()
             a = self.stack.pop()
-            self.stack.append(to_number(a) - to_number(b))
+            self.stack.append(as_double(to_number(a) - to_number(b)))
 
         elif op == OpCode.MUL:
             b = self.stack.pop()
@@ -520,7 +538,7 @@ class VM:
             if n == 0:
                 self.stack.append(-0.0 if math.copysign(1, n) > 0 else 0.0)
             else:
-                self.stack.append(-n)
+                self.stack.append(as_double(-n))
 
         elif op == OpCode.POS:
             a = self.stack.pop()
@@ -808,11 +826,11 @@ class VM:
         # Increment/Decrement
         elif op == OpCode.INC:
             a = self.stack.pop()
-            self.stack.append(to_number(a) + 1)
+            self.stack.append(as_double(to_number(a) + 1))
 
         elif op == OpCode.DEC:
             a = self.stack.pop()
-            self.stack.append(to_number(a) - 1)
+            self.stack.append(as_double(to_number(a) - 1))
 
         # Closures
         elif op == OpCode.MAKE_CLOSURE:
@@ -921,7 +939,7 @@ class VM:
         if isinstance(a, str) or isinstance(b, str):
             return to_string(a) + to_string(b)
         # Numeric addition
-        return to_number(a) + to_number(b)
+        return as_double(to_number(a) + to_number(b))
 
     def _to_int32(self, value: JSValue) -> int:
         """Convert to 32-bit signed integer."""
